@@ -252,8 +252,20 @@ fn random_kind(r: &mut Rng, tier: Tier, index: u64) -> Kind {
         6 | 7 => Kind::Hits { pattern: r.below(25) as u8, n: if tier == Tier::Thorough && r.chance(1, 20) { *r.pick(&[600usize, 1000, 2000]) } else { *r.pick(&[1usize, 2, 12, 13, 14, 30, 60, 256]) } },
         8 => Kind::Random { n: r.usize(0, 12) },
         _ => Kind::EvFault {
-            base: BaseEvent { run: *r.pick(&[u32::MAX, 11084, 9277, 0]), seed: r.next_u64(), n_wires: r.usize(1, 30), n_pad_msgs: r.usize(0, 3), long_only: r.chance(1, 2), pad_start: None, suppressed_only: false },
-            slot: r.usize(0, 34),
+            base: BaseEvent {
+                // (half of them on a run number where the current sources switch a map or calibration)
+                run: {
+                    let b = crate::eventgen::run_boundaries();
+                    if !b.is_empty() && r.chance(1, 2) { b[r.usize(0, b.len() - 1)] } else { *r.pick(&[u32::MAX, 11084, 9277, 0]) }
+                },
+                seed: r.next_u64(),
+                n_wires: if r.chance(1, 4) { 256 } else { r.usize(1, 30) },
+                n_pad_msgs: r.usize(0, 3),
+                long_only: r.chance(1, 2),
+                pad_start: None,
+                suppressed_only: false,
+            },
+            slot: r.usize(0, 35),
         },
     }
 }
